@@ -279,6 +279,32 @@ fn cases(tier: Tier) -> Vec<Case> {
         let want = expected_codes(&f, &none, &stave_key());
         v.push(Case { label: format!("IB {label}"), cfg: ib_cfg(), key: stave_key(), frames: vec![f], want: vec![Some(want)] });
     }
+    // ---- IB chip lists: every list of length 1..2 over chip ids {lane, lane+1} x {empty frame, header+hit+trailer} x
+    //      bunch counter {frame's, another}: accepted iff exactly one chip, id = lane, frame's bunch counter
+    {
+        let mut singles: Vec<Chip> = Vec::new();
+        for id in [4u8, 5] {
+            for empty in [true, false] {
+                for bc in [0x44u8, 0x45] {
+                    singles.push(Chip { id, bc, empty, hits: if empty { vec![] } else { vec![ha[1]] }, flags: 0, pad_before: 0 });
+                }
+            }
+        }
+        let mut lists: Vec<Vec<Chip>> = singles.iter().map(|c| vec![c.clone()]).collect();
+        for a in &singles {
+            for b in &singles {
+                lists.push(vec![a.clone(), b.clone()]);
+            }
+        }
+        for list in lists {
+            let mut lanes: Vec<LaneSpec> = [3u8, 4, 5].iter().map(|l| ib_lane(*l, 0x44, &[ha[1]], None)).collect();
+            lanes[1].chips = list.clone();
+            let f = FrameSpec { lanes, nodata_before: false, split: None };
+            let want = expected_codes(&f, &none, &stave_key());
+            let desc: Vec<String> = list.iter().map(|c| format!("(id {} bc {:#x} {})", c.id, c.bc, if c.empty { "empty" } else { "hits" })).collect();
+            v.push(Case { label: format!("IB lane 4 chip list {}", desc.join(" ")), cfg: ib_cfg(), key: stave_key(), frames: vec![f], want: vec![Some(want)] });
+        }
+    }
     // ---- hit content invariance: valid IB frame and an invalid one (lane BC differs) x all hit sequences
     let maxlen = if tier.is_thorough() { 3 } else { 2 };
     let mut seqs: Vec<Vec<Hit>> = vec![vec![]];
